@@ -27,6 +27,7 @@
 #include <unifex/type_list.hpp>
 #include <unifex/type_traits.hpp>
 #include <unifex/unstoppable_token.hpp>
+#include <unifex/detail/verif_hooks.hpp>
 
 #include <atomic>
 #include <exception>
@@ -71,6 +72,7 @@ private:
     stream& stream_;
 
     void operator()() noexcept {
+      UNIFEX_VERIF_YIELD("stream.si.cb_load");
       auto oldState = stream_.state_.load(std::memory_order_acquire);
       if (oldState == state::source_next_active) {
         // We may be racing with the next() operation completing on another
@@ -87,6 +89,7 @@ private:
         // Thus it should be safe to use 'relaxed' memory access for the
         // compare-exchange below since we have already synchronised with the
         // 'acquire' operation above.
+        UNIFEX_VERIF_YIELD("stream.si.cb_cas");
         if (stream_.state_.compare_exchange_strong(
                 oldState,
                 state::source_next_active_stream_stopped,
@@ -95,6 +98,7 @@ private:
           // Send the 'done' signal immediately to signal the end of the
           // sequence and also send the stop signal to the still-running
           // next() operation.
+          UNIFEX_VERIF_YIELD("stream.si.cb_deliver");
           stream_.stopSource_.request_stop();
           auto receiver = std::exchange(stream_.nextReceiver_, nullptr);
           UNIFEX_ASSERT(receiver != nullptr);
@@ -151,9 +155,11 @@ private:
       auto& strm = stream_;
       strm.nextOp_.destruct();
 
+      UNIFEX_VERIF_YIELD("stream.si.hs_load");
       auto oldState = strm.state_.load(std::memory_order_acquire);
 
       if (oldState == state::source_next_active) {
+        UNIFEX_VERIF_YIELD("stream.si.hs_cas1");
         if (strm.state_.compare_exchange_strong(
                 oldState,
                 state::source_next_completed,
@@ -161,12 +167,14 @@ private:
           // We acquired ownership of the receiver before it was cancelled.
           auto* receiver = std::exchange(strm.nextReceiver_, nullptr);
           UNIFEX_ASSERT(receiver != nullptr);
+          UNIFEX_VERIF_YIELD("stream.si.hs_deliver");
           deliverSignalTo(receiver);
           return;
         }
       }
 
       if (oldState == state::source_next_active_stream_stopped) {
+        UNIFEX_VERIF_YIELD("stream.si.hs_cas2");
         if (strm.state_.compare_exchange_strong(
                 oldState,
                 state::source_next_completed,
@@ -370,9 +378,11 @@ private:
           , receiver_((Receiver2&&)receiver) {}
 
         void start() noexcept {
+          UNIFEX_VERIF_YIELD("stream.si.cl_load");
           auto oldState = stream_.state_.load(std::memory_order_acquire);
           if (oldState == state::source_next_active_stream_stopped) {
             stream_.cleanupOp_ = this;
+            UNIFEX_VERIF_YIELD("stream.si.cl_cas");
             if (stream_.state_.compare_exchange_strong(
                     oldState,
                     state::source_next_active_cleanup_requested,
